@@ -326,3 +326,7 @@ def units(tier):
 
 def selftest():
     return AR.selftest() + ' ' + DR.selftest()
+
+
+# dimensions added after the fourth and fifth round of seeded changes (DESIGN.md 8.3, 8.4); part of the rule reported in the evidence
+RULE += ' Added with the fourth and fifth round of seeded changes: word lists not ascending; another class\'s expected key asked first; leakage of negative polarity with maxabs; one-sample frames (CPA/DPA); class lists descending / shuffled.'
